@@ -9,6 +9,8 @@ import (
 	"testing/synctest"
 	"time"
 
+	"github.com/prometheus/alertmanager/dispatch"
+
 	"verif/harness/gen"
 	"verif/harness/model"
 	"verif/harness/scen"
@@ -34,7 +36,7 @@ func rejectedInputs(valid, rootReceiver string) map[string]string {
 
 func TestRejectedReloadKeepsRunningConfig(t *testing.T) {
 	run := vf.Cur()
-	sub := run.Sub("rejected-reload", "a valid generated configuration is running with traffic on the real app (virtual time); the file is replaced by each class of rejected input (YAML error, validation errors, template file that fails to parse, tracing configuration that cannot be applied, receiver that fails to build) and App.Reload is called: it must return an error, GET /status must still serve the old configuration, GET /alerts must still show the old routing (receivers), and notifications must keep following the old configuration; non-trivial = >=1 reload was rejected and the old routing was re-observed afterwards; distinct by (seed, class)", 20)
+	sub := run.Sub("rejected-reload", "a valid generated configuration is running with traffic on the real app (virtual time); the file is replaced by each class of rejected input (YAML error, validation errors, template file that fails to parse, tracing configuration that cannot be applied, receiver that fails to build) and App.Reload is called: it must return an error, GET /status must still serve the old configuration, GET /alerts must still show the old routing (receivers), and notifications must keep following the old configuration; finally a different valid configuration is loaded: the reload must succeed, the text served by GET /status must load back to a tree that routes probe label sets exactly like the new configuration, GET /alerts must show the new routing and the reload metric must read 1; non-trivial = >=1 reload was rejected and the old routing was re-observed afterwards; distinct by (seed, class)", 20)
 	os.MkdirAll("/verif/props/c17/testdata", 0o755)
 	n := run.N(60, 3000)
 	vf.Parallel(t, n, 16, func(t *testing.T, i int) {
@@ -123,6 +125,56 @@ func TestRejectedReloadKeepsRunningConfig(t *testing.T) {
 			if metric := in.Metric("alertmanager_config_last_reload_successful", nil); metric != 0 {
 				sub.Violation("reload-success-metric-not-zero-after-rejected-reload", map[string]any{"metric": metric})
 			}
+			// an ACCEPTED reload afterwards: the status API, the routing shown by the API and the reload
+			// metric must all follow the new configuration (the served text loads back to the new tree)
+			cfgB := scen.GenConfig(r, scen.GenOpt{Depth: 2, Fanout: 2, ShortTimers: true})
+			cfgB.Route.Receiver = cfgB.Receivers[len(cfgB.Receivers)-1].Name
+			validB := cfgB.YAML()
+			rootB := model.Resolve(cfgB.Route)
+			if err := in.Reload(validB); err != nil {
+				sub.Inconclusive("reload of a valid generated configuration rejected: " + err.Error())
+				return
+			}
+			time.Sleep(time.Second)
+			wB := map[string]any{"seed": sub.Seed(i), "old_config": valid, "new_config": validB}
+			_, served := in.StatusConfig()
+			loaded := safeLoad(served)
+			if loaded.err != nil || loaded.cfg == nil {
+				wB["served"] = served
+				sub.Violation("status-api-text-does-not-load-after-accepted-reload", wB)
+				return
+			}
+			realB := dispatch.NewRoute(loaded.cfg.Route, nil)
+			for _, l := range append(gen.LabelSets(r, 6), lsets...) {
+				var want, got []string
+				for _, nd := range rootB.Match(l) {
+					want = append(want, nd.Receiver)
+				}
+				for _, rt := range realB.Match(toLS(l)) {
+					got = append(got, rt.RouteOpts.Receiver)
+				}
+				if strings.Join(got, ",") != strings.Join(want, ",") {
+					wB["labels"], wB["served_text_routes_to"], wB["new_config_routes_to"], wB["served"] = l, got, want, served
+					sub.Violation("status-api-serves-a-stale-configuration-after-accepted-reload", wB)
+					return
+				}
+			}
+			_, alerts := in.GetAlerts("")
+			for _, ga := range alerts {
+				var want []string
+				for _, nd := range rootB.Match(ga.Labels) {
+					want = append(want, nd.Receiver)
+				}
+				if strings.Join(ga.ReceiverNames(), ",") != strings.Join(want, ",") {
+					wB["alert"], wB["api_receivers"], wB["new_routing"] = ga.Labels.Key(), ga.ReceiverNames(), want
+					sub.Violation("routing-does-not-follow-accepted-reload", wB)
+					return
+				}
+			}
+			if metric := in.Metric("alertmanager_config_last_reload_successful", nil); metric != 1 {
+				sub.Violation("reload-success-metric-not-one-after-accepted-reload", map[string]any{"metric": metric})
+			}
+			sub.Count("accepted_reloads_checked", 1)
 		})
 	})
 }
